@@ -2,8 +2,9 @@ SPEC = dict(
     claimed=True,
     title='A never-stop fan is never driven below its minimum, and the minimum never drops',
     props_file='Props/C02.v', props_mod='Props.C02',
+    props_extra=[('Props/C02Link.v', 'Props.C02Link')],
     proof_files=['Proofs/Rescale.v', 'Proofs/Ctrl.v', 'Drv/CtrlC02.v'],
-    tie_vo=['Proofs/LeafTie.vo', 'Proofs/ConstsTie_basic.vo', 'Proofs/ConstsTie_clamp.vo', 'Proofs/ConstsTie_stall.vo'],
+    tie_vo=['Proofs/LeafTie.vo', 'Proofs/ConstsTie_basic.vo', 'Proofs/ConstsTie_clamp.vo', 'Proofs/ConstsTie_stall.vo', 'Proofs/LeafTie2_calcTarget.vo', 'Proofs/LeafTie2_DirectCycle.vo', 'Proofs/LeafTie2_PidCycle.vo', 'Proofs/LeafTie2_applyPwmMapping.vo', 'Proofs/LeafTie2_HwMonGetMinPwm.vo', 'Proofs/LeafTie2_HwMonGetMaxPwm.vo', 'Proofs/LeafTie2_HwMonGetRpmAvg.vo', 'Proofs/LeafTie2_HwMonSetRpmAvg.vo', 'Proofs/LeafTie2_HwMonShouldNeverStop.vo', 'Proofs/LeafTie2_HwMonSetMinPwm.vo'],
     drivers=[dict(name='ctrl', drv_mod='Drv.CtrlC02', drv_file='Drv/CtrlC02.v', shard=100,
                   args={'quick': ['n=600'], 'thorough': ['n=12000']}, timeout={'quick': 900, 'thorough': 6000})],
     rule='seeded histories of 1..40 control cycles with interleaved RPM polls, external interference and device faults on real '
